@@ -491,6 +491,35 @@ def parse_header_keeps_parameters(p: Program, rep=None):
              f"(value names: {', '.join(sorted(vnames))})", [])]
 
 
+def parse_header_splits_at_first_equals(p: Program, rep=None):
+    """`name=value`: the name ends at the FIRST '=' of a parameter - a value may contain '=' itself (filename="a=b.txt",
+    boundary="----=_Part_1"). Splitting at the last one (rpartition / rfind / rsplit) loses the `name` / `filename` / `boundary`
+    parameter for such values: a file part is decoded as a field, a field has no name, the request boundary is cut."""
+    fn = p.function("baize.utils", "parse_header")
+    if fn is None:
+        raise AnalysisError("baize.utils.parse_header vanished")
+    from ..common import with_helpers
+    first, last = [], []
+    for f_ in with_helpers(p, fn):
+        for c in ast.walk(f_.node):
+            if isinstance(c, ast.Call) and isinstance(c.func, ast.Attribute) and c.args and isinstance(c.args[0], ast.Constant) and c.args[0].value == "=":
+                if c.func.attr in ("find", "index", "partition"):
+                    first.append((f_, c))
+                elif c.func.attr == "split":
+                    ms = c.args[1] if len(c.args) > 1 else next((k.value for k in c.keywords if k.arg == "maxsplit"), None)
+                    (first if isinstance(ms, ast.Constant) and ms.value == 1 else last).append((f_, c))
+                elif c.func.attr in ("rfind", "rindex", "rpartition", "rsplit"):
+                    last.append((f_, c))
+    if last:
+        f_, c = last[0]
+        return [("violation", f_, c, f"parameter split at `{ast.unparse(c)[:40]}`",
+                 f"parse_header separates a parameter's name from its value with `{ast.unparse(c)[:40]}`, not at the first '=': a value that contains '=' (filename=\"q=1.txt\", "
+                 "name=\"a[b]=c\", boundary=\"----=_Part\") moves into the name, so the real name / filename / boundary parameter is lost (a file part becomes a field, the form is split at a wrong boundary)", [])]
+    if first:
+        return [("ok", fn, None, "", f"parse_header splits name=value at the first '=' (`{ast.unparse(first[0][1])[:40]}`)", [])]
+    return [("undecided", fn, None, "", "parse_header: no split of a parameter at '=' found (idiom not recognised)", [])]
+
+
 # ----------------------------------------------------------------------------- the "pending partial delimiter" idiom
 def decoder_patterns(p: Program, B: bytes):
     """{attr: (pattern bytes, flags, assignment node)} for every `self.<attr> = <compiled regex>` of MultipartDecoder.__init__,
